@@ -219,6 +219,10 @@ func (r *runner) run(ctx context.Context, isStream bool, input any, opts ...Opti
 				ctx = context.WithValue(ctx, stateKey{}, &internalState{state: cp.State})
 			}
 
+			// as in a fresh run, the tasks inherit the context the graph's OnStart handlers hand back
+			haveOnStart = true
+			ctx, input = onGraphStart(ctx, input, isStream)
+
 			nextTasks, err = r.restoreTasks(ctx, cp.Inputs, cp.SkipPreHandler, optMap) // should restore after set state to context
 			if err != nil {
 				return nil, newGraphRunError(fmt.Errorf("restore tasks fail: %w", err))
@@ -255,6 +259,10 @@ func (r *runner) run(ctx context.Context, isStream bool, input any, opts ...Opti
 				ctx = context.WithValue(ctx, stateKey{}, &internalState{state: cp.State})
 			}
 
+			// as in a fresh run, the tasks inherit the context the graph's OnStart handlers hand back
+			haveOnStart = true
+			ctx, input = onGraphStart(ctx, input, isStream)
+
 			// resume graph
 			nextTasks, err = r.restoreTasks(ctx, cp.Inputs, cp.SkipPreHandler, optMap)
 			if err != nil {
@@ -287,7 +295,7 @@ func (r *runner) run(ctx context.Context, isStream bool, input any, opts ...Opti
 		if hit := getHitKey(nextTasks, r.interruptBeforeNodes); len(hit) > 0 {
 			return nil, r.handleInterrupt(ctx, hit, nil, nextTasks, cm.channels, isStream, isSubGraph, checkPointID, 0)
 		}
-	} else {
+	} else if !haveOnStart {
 		haveOnStart = true
 		ctx, input = onGraphStart(ctx, input, isStream)
 	}
